@@ -810,7 +810,7 @@ func (c *c10Case) choosePay(cost types.Currency, short bool) c10Pay {
 			return c10Pay{acct: a, amount: amount}
 		}
 	}
-	i := c.rng.Intn(len(c.cons))
+	i := c.anyOpen()
 	cur := c.contract(i).Revision
 	amount := cost.Add(c.over(cost))
 	if short && !cost.IsZero() {
@@ -1008,7 +1008,7 @@ func (i c10Instr) term() string {
 func (c *c10Case) exec3() {
 	pt := c.pt
 	// the program's contract (if it needs one)
-	ci := c.rng.Intn(len(c.cons))
+	ci := c.anyOpen()
 	ct := c.cons[ci]
 	cur := c.contract(ci).Revision
 	remaining := cur.WindowEnd - pt.HostBlockHeight
@@ -1088,6 +1088,14 @@ func (c *c10Case) exec3() {
 			appended = true
 		case r < 12: // read registry
 			ki := c.rng.Intn(3)
+			if _, exists := reg[ki]; !exists && c.rng.Intn(4) > 0 {
+				for k2 := 0; k2 < 3; k2++ { // mostly read keys that exist
+					if _, ok := reg[k2]; ok {
+						ki = k2
+						break
+					}
+				}
+			}
 			uk := c.regKey.PublicKey().UnlockKey()
 			var tweak types.Hash256
 			tweak[0] = byte(ki + 1)
@@ -1228,6 +1236,13 @@ func (c *c10Case) exec3() {
 		if w.idx < c.lastExecuted {
 			c.regRev[w.key] = w.rev
 		}
+	}
+	if err != nil {
+		msg := err.Error()
+		if len(msg) > 60 {
+			msg = msg[:60]
+		}
+		c.em.Count("exec3:err:" + msg)
 	}
 	c.em.Count(fmt.Sprintf("exec3:len=%d,fin=%v", len(prog), needf))
 	c.em.Step(fmt.Sprintf("Exec3 %s %s %s [%s] %s", pay.term(), pcTerm, c10Cur(pt.InitBaseCost), strings.Join(terms, "; "), finProp.term()),
